@@ -38,6 +38,7 @@ func init() {
 			{ID: "C16.17", Desc: "no append into a package-level slice on the exchange (log records built in shared memory)", Run: func(c *Ctx) { ruleNoAppendToSharedSlice(c, "C16.17") }, MinSites: 1},
 			{ID: "C16.18", Desc: "a foreground 304 is merged into the entry it was asked about (no re-read between the request and the merge)", Run: func(c *Ctx) { ruleValidatedEntryIsSentEntry(c, "C16.18") }, MinSites: 1},
 			{ID: "C16.19", Desc: "a write of a call that has returned cannot land later (the gate holds its lock across the step)", Run: func(c *Ctx) { ruleAbandonedNotPublished(c, "C16.19") }, MinSites: 1},
+			{ID: "C16.20", Desc: "the matcher's position refers to the caller's list (right variant for every caller)", Run: func(c *Ctx) { ruleMatcherIndexesCallersSlice(c, "C16.20"); ruleMatcherIndex(c, "C16.20") }, MinSites: 2},
 		},
 	})
 }
